@@ -1,7 +1,7 @@
 ----------------------------- MODULE ALG_Confirm -----------------------------
 (* Confirmation of a collision certificate on the real code: the two tagged   *)
-(* events ["confirm", kind, 0] and ["confirm", kind, 1] (inputs 0 and the     *)
-(* kernel vector) must have produced the same pool.                           *)
+(* events ["confirm", kind, 0] and ["confirm", kind, 1] (two different inputs)  *)
+(* must have produced the same pool / state image.                            *)
 EXTENDS Sequences, Integers, Json, IOUtils, TLC
 Rec == ndJsonDeserialize(IOEnv.TRACE)
 VARIABLE l
@@ -9,6 +9,7 @@ Tagged(i, w) == "tag" \in DOMAIN Rec[i] /\ Rec[i].tag[1] = "confirm" /\ Rec[i].t
 Init == l = 1
 Next == l <= Len(Rec) /\ l' = l + 1
 Spec == Init /\ [][Next]_l
-Collides == \E i, j \in 1..Len(Rec) : Tagged(i, 0) /\ Tagged(j, 1) /\ Rec[i].obs.pool = Rec[j].obs.pool
+Image(i) == IF "pool" \in DOMAIN Rec[i].obs THEN Rec[i].obs.pool ELSE Rec[i].obs.s      \* jitter pool, or the state image of a plain generator
+Collides == \E i, j \in 1..Len(Rec) : Tagged(i, 0) /\ Tagged(j, 1) /\ Image(i) = Image(j)
 Report == l = Len(Rec) + 1 => PrintT(<<"COLLISION", Collides>>)
 =============================================================================
